@@ -17,8 +17,10 @@ EXTENDS Naturals, Sequences, FiniteSets
 
 ManifestPhases == <<"p1", "p2">>
 
-\* an object without a phase annotation fails validation: the whole render is rejected
-Invalid(p) == \E i \in DOMAIN p.files : \E d \in DOMAIN p.files[i].docs : p.files[i].docs[d].phase = "none"
+\* an object whose phase annotation is missing ("none"), or is not exactly the name of a manifest phase ("p1ws": the name
+\* with a trailing blank, "unknown": some other name) fails validation: the whole render is rejected
+Invalid(p) == \E i \in DOMAIN p.files : \E d \in DOMAIN p.files[i].docs :
+                 ~\E j \in DOMAIN ManifestPhases : p.files[i].docs[d].phase = ManifestPhases[j]
 
 Flatten(ss) == LET F[i \in 0..Len(ss)] == IF i = 0 THEN <<>> ELSE F[i - 1] \o ss[i] IN F[Len(ss)]
 
